@@ -25,7 +25,7 @@ fn hook_engine() -> Engine {
                 // batch hook + PassthroughSingletonHook in one tick (exposed finding #1, findings/NOTES.txt)
                 Scenario { name: "passthrough_tick", weight: 1, run: c36::run_passthrough_tick },
             ],
-            quick_runs: 1_500_000,
+            quick_runs: 600_000,
             thorough_runs: 150_000_000,
             rule: "hook level: each run draws knobs (1-3 batch hooks of seeded kinds forming one tick, or one top-level hook forming an observation, or one in-tick ordering hook; 1-3 keys; <=6 uniquely numbered items per hook; arrivals per step; logging on/off) and then alternates seeded arrivals with scheduled ticks whose every release decision is answered by the recorded decision stream. Distinct = distinct hash of the realised decision trace; non-trivial = at least one item/snapshot was released AND at least one decision with more than one legal answer was answered with a non-first choice.",
             time_unit: "scheduled ticks/observations",
@@ -62,7 +62,7 @@ fn hook_engine() -> Engine {
                 Scenario { name: "tick_cfg", weight: 3, run: c37::run_tick_cfg },
                 Scenario { name: "observation_cfg", weight: 1, run: c37::run_observation_cfg },
             ],
-            quick_runs: 400_000,
+            quick_runs: 200_000,
             thorough_runs: 20_000_000,
             rule: "hook level: each run draws a small configuration (1-2 batch hooks forming a tick, or one top-level hook forming an observation; <=4 items over <=2 keys; 1-3 consecutive ticks with fixed arrivals), obtains the set S of outcome tuples the repository's hooks reach under bolero's real exhaustive driver (cached per configuration), then draws one legal outcome tuple from an independent reference description of the decision space and tests membership in S. Distinct = distinct (configuration, sampled reference outcome); non-trivial = the sampled outcome releases at least one item/snapshot AND at least one reference decision was not the first choice.",
             time_unit: "reference ticks/observations sampled",
@@ -116,9 +116,24 @@ fn main() {
     }
     let mut exit = 0;
     let mut hook_ev = None;
-    if HOOK_LEG.contains(&prop.as_str()) && only != "e2e" {
-        let st = hook_cmd().status().expect("spawn hook leg");
-        let code = st.code().unwrap_or(2);
+    // the two legs run side by side; the hook leg's output is printed when it has finished
+    let hook_child = if HOOK_LEG.contains(&prop.as_str()) && only != "e2e" {
+        Some(hook_cmd().stdout(std::process::Stdio::piped()).stderr(std::process::Stdio::piped()).spawn().expect("spawn hook leg"))
+    } else {
+        None
+    };
+    let mut e2e_ev = None;
+    let mut e2e_exit = 0;
+    if only != "hook" {
+        let r = e2e::run(&prop, &args);
+        e2e_exit = r.exit;
+        e2e_ev = r.evidence;
+    }
+    if let Some(child) = hook_child {
+        let out = child.wait_with_output().expect("wait hook leg");
+        print!("{}", String::from_utf8_lossy(&out.stdout));
+        eprint!("{}", String::from_utf8_lossy(&out.stderr));
+        let code = out.status.code().unwrap_or(2);
         if code == 2 {
             std::process::exit(2);
         }
@@ -126,15 +141,10 @@ fn main() {
         let p = simcore::runner::verif_dir().join("evidence").join(format!("{prop}.json"));
         hook_ev = std::fs::read_to_string(&p).ok().and_then(|s| serde_json::from_str(&s).ok());
     }
-    let mut e2e_ev = None;
-    if only != "hook" {
-        let r = e2e::run(&prop, &args);
-        if r.exit == 2 {
-            std::process::exit(2);
-        }
-        exit = exit.max(r.exit);
-        e2e_ev = r.evidence;
+    if e2e_exit == 2 {
+        std::process::exit(2);
     }
+    exit = exit.max(e2e_exit);
     if let Err(e) = e2e::write_evidence(&prop, &args, hook_ev, e2e_ev, t0.elapsed().as_secs_f64()) {
         eprintln!("HARNESS: {e}");
         std::process::exit(2);
